@@ -1,216 +1,289 @@
 (** The authz assumption of Metadata/Signers.v as theorems about Metadata/AuthzCount.v:
     - on a store of GENERIC authorizations, findAuthzGrantee (with whatever the per-message cache
-      holds) returns exactly [find_grantee] of the erased relation [mk_env m wasm (raw_of st)] and
-      leaves the store unchanged: lookups commute, can be repeated, and the accept / reject
-      functions of Metadata/Signers.v, which only ever call [find_grantee] / [granted], see all
-      there is to see;
+      holds) never errors, returns exactly [find_grantee] of the relation of the grants LIVE at the
+      block time, [mk_env m wasm (raw_of now st)], and leaves the store unchanged: lookups commute,
+      can be repeated, and the accept / reject functions of Metadata/Signers.v, which only ever
+      call [find_grantee] / [granted], see all there is to see;
     - with ONE count-limited authorization both fail: a lookup changes the store and the same
       message is accepted once and then rejected;
-    - a CountAuthorization with n uses stands in for exactly n messages (what the harness
-      compares the real keeper with in the count-limited evidence cases). *)
+    - a message accepted through a grant had a grant that was live at its block time;
+    - a CountAuthorization with n uses (no expiration) stands in for exactly n messages;
+    - at the very second of its expiration a CountAuthorization with >= 2 uses makes the message
+      FAIL (the re-save of the decremented grant is refused), one with 1 use or a generic one
+      still works; afterwards nothing works. *)
 From Coq Require Import ZArith List Bool Lia.
 From PV Require Import Metadata.Signers Metadata.AuthzCount.
 Import ListNotations.
 Open Scope Z_scope.
 
-Definition has (st : cstore) (granter grantee kind : Z) : bool :=
-  existsb (cg_is granter grantee kind) st.
+Definition has (now : Z) (st : cstore) (granter grantee kind : Z) : bool :=
+  existsb (cg_live_is now granter grantee kind) st.
 
-(** every cached triple is backed by a stored authorization *)
-Definition cache_ok (st : cstore) (c : ccache) : Prop :=
-  forall t, In t c -> has st (snd (fst t)) (fst (fst t)) (snd t) = true.
+(** every cached triple is backed by a stored live authorization *)
+Definition cache_ok (now : Z) (st : cstore) (c : ccache) : Prop :=
+  forall t, In t c -> has now st (snd (fst t)) (fst (fst t)) (snd t) = true.
 
-Lemma cache_has_ok : forall st c grantee granter k,
-  cache_ok st c -> cache_has c grantee granter k = true -> has st granter grantee k = true.
+Lemma cache_has_ok : forall now st c grantee granter k,
+  cache_ok now st c -> cache_has c grantee granter k = true -> has now st granter grantee k = true.
 Proof.
-  intros st c grantee granter k Hok H. unfold cache_has in H. apply existsb_exists in H as (t & Ht & He).
+  intros now st c grantee granter k Hok H. unfold cache_has in H. apply existsb_exists in H as (t & Ht & He).
   apply andb_prop in He as [He H3]. apply andb_prop in He as [H1 H2].
   apply Z.eqb_eq in H1, H2, H3. subst. now apply Hok.
 Qed.
 
-Lemma find_has : forall st granter grantee k,
-  (match find (cg_is granter grantee k) st with Some _ => true | None => false end)
-  = has st granter grantee k.
+Lemma find_has : forall now st granter grantee k,
+  (match find (cg_live_is now granter grantee k) st with Some _ => true | None => false end)
+  = has now st granter grantee k.
 Proof.
-  intros st granter grantee k. unfold has. induction st as [|g t IH]; cbn; [reflexivity|].
-  destruct (cg_is granter grantee k g); auto.
+  intros now st granter grantee k. unfold has. induction st as [|g t IH]; cbn; [reflexivity|].
+  destruct (cg_live_is now granter grantee k g); auto.
 Qed.
 
-Lemma st_update_same : forall st granter grantee k g,
-  find (cg_is granter grantee k) st = Some g -> st_update st granter grantee k (Some g) = st.
-Proof.
-  induction st as [|x t IH]; intros granter grantee k g H; cbn in *; [discriminate|].
-  destruct (cg_is granter grantee k x).
-  - now injection H as ->.
-  - now rewrite (IH _ _ _ _ H).
-Qed.
-
-Lemma try_kinds_generic : forall st c granter grantee kinds,
-  all_generic st -> cache_ok st c ->
-  match try_kinds st c granter grantee kinds with
-  | Some (st', c') => st' = st /\ cache_ok st c' /\ existsb (has st granter grantee) kinds = true
-  | None => existsb (has st granter grantee) kinds = false
+Lemma try_kinds_generic : forall now st c granter grantee kinds,
+  all_generic st -> cache_ok now st c ->
+  match try_kinds now st c granter grantee kinds with
+  | LFound st' c' => st' = st /\ cache_ok now st c' /\ existsb (has now st granter grantee) kinds = true
+  | LNone => existsb (has now st granter grantee) kinds = false
+  | LErr => False
   end.
 Proof.
-  intros st c granter grantee kinds Hg Hok; induction kinds as [|k rest IH]; cbn [try_kinds existsb].
+  intros now st c granter grantee kinds Hg Hok; induction kinds as [|k rest IH]; cbn [try_kinds existsb].
   - reflexivity.
   - destruct (cache_has c grantee granter k) eqn:Hc.
-    + split; [reflexivity|]. split; [exact Hok|]. now rewrite (cache_has_ok _ _ _ _ _ Hok Hc).
-    + pose proof (find_has st granter grantee k) as Hf.
-      destruct (find (cg_is granter grantee k) st) as [g|] eqn:Hfind.
+    + split; [reflexivity|]. split; [exact Hok|]. now rewrite (cache_has_ok _ _ _ _ _ _ Hok Hc).
+    + pose proof (find_has now st granter grantee k) as Hf.
+      destruct (find (cg_live_is now granter grantee k) st) as [g|] eqn:Hfind.
       * assert (Hin : In g st) by (apply find_some in Hfind; tauto).
-        unfold accept. rewrite (Hg g Hin). rewrite (st_update_same _ _ _ _ _ Hfind).
+        unfold accept. rewrite (Hg g Hin).
         split; [reflexivity|]. rewrite <- Hf. split; [|reflexivity].
         intros t [<-|Ht]; [cbn; now rewrite <- Hf|now apply Hok].
       * rewrite <- Hf. cbn [orb]. exact IH.
 Qed.
 
-Lemma find_grantee_c_generic : forall st c granter grantees kinds,
-  all_generic st -> cache_ok st c ->
-  exists c', find_grantee_c st c granter grantees kinds =
-             (find (fun g => existsb (has st granter g) kinds) grantees, st, c') /\
-             cache_ok st c'.
+Lemma find_grantee_c_generic : forall now st c granter grantees kinds,
+  all_generic st -> cache_ok now st c ->
+  exists c',
+    (match find (fun g => existsb (has now st granter g) kinds) grantees with
+     | Some g => find_grantee_c now st c granter grantees kinds = RFound g st c'
+     | None => find_grantee_c now st c granter grantees kinds = RNone st c'
+     end) /\ cache_ok now st c'.
 Proof.
-  intros st c granter grantees kinds Hg Hok; induction grantees as [|g rest IH]; cbn [find_grantee_c find].
+  intros now st c granter grantees kinds Hg Hok; induction grantees as [|g rest IH]; cbn [find_grantee_c find].
   - exists c. auto.
-  - pose proof (try_kinds_generic st c granter g kinds Hg Hok) as HT.
-    destruct (try_kinds st c granter g kinds) as [[st' c']|].
-    + destruct HT as (-> & Hok' & ->). exists c'. auto.
+  - pose proof (try_kinds_generic now st c granter g kinds Hg Hok) as HT.
+    destruct (try_kinds now st c granter g kinds) as [|st' c'|].
     + rewrite HT. exact IH.
+    + destruct HT as (-> & Hok' & ->). exists c'. auto.
+    + destruct HT.
 Qed.
 
-Lemma granted_raw : forall st m wasm granter grantee,
-  granted (mk_env m wasm (raw_of st)) granter grantee =
-  existsb (has st granter grantee) (authz_urls m).
+Lemma granted_raw : forall now st m wasm granter grantee,
+  granted (mk_env m wasm (raw_of now st)) granter grantee =
+  existsb (has now st granter grantee) (authz_urls m).
 Proof.
-  intros st m wasm granter grantee. apply eq_true_iff_eq.
+  intros now st m wasm granter grantee. apply eq_true_iff_eq.
   unfold granted, mk_env, raw_of. cbn [e_grants]. rewrite !existsb_exists. split.
   - intros ([a b] & Hin & He). cbn in He. apply andb_prop in He as [H1 H2]. apply Z.eqb_eq in H1, H2. subst.
     apply in_map_iff in Hin as ([[a' b'] k] & Heq & Hin). cbn in Heq. injection Heq as -> ->.
     apply filter_In in Hin as [Hin Hk]. cbn [snd] in Hk.
     apply in_map_iff in Hin as (g & Hg & Hgin). injection Hg as <- <- <-.
+    apply filter_In in Hgin as [Hgin Hlive].
     unfold mem in Hk. apply existsb_exists in Hk as (k' & Hk' & He). apply Z.eqb_eq in He. subst k'.
     exists (cg_kind g). split; auto. unfold has. apply existsb_exists. exists g. split; auto.
-    unfold cg_is. now rewrite !Z.eqb_refl.
+    unfold cg_live_is, cg_is. now rewrite !Z.eqb_refl, Hlive.
   - intros (k & Hk & Hh). unfold has in Hh. apply existsb_exists in Hh as (g & Hg & Hc).
-    unfold cg_is in Hc. apply andb_prop in Hc as [Hc H3]. apply andb_prop in Hc as [H1 H2].
+    unfold cg_live_is, cg_is in Hc. apply andb_prop in Hc as [Hc Hlive].
+    apply andb_prop in Hc as [Hc H3]. apply andb_prop in Hc as [H1 H2].
     apply Z.eqb_eq in H1, H2, H3. subst.
     exists (cg_granter g, cg_grantee g). split; [|cbn; now rewrite !Z.eqb_refl].
     apply in_map_iff. exists (cg_granter g, cg_grantee g, cg_kind g). split; [reflexivity|].
-    apply filter_In. split; [apply in_map_iff; exists g; auto|].
-    cbn [snd]. unfold mem. apply existsb_exists. exists (cg_kind g). split; auto. apply Z.eqb_refl.
+    apply filter_In. split.
+    + apply in_map_iff. exists g. split; auto. apply filter_In. auto.
+    + cbn [snd]. unfold mem. apply existsb_exists. exists (cg_kind g). split; auto. apply Z.eqb_refl.
 Qed.
 
 Lemma find_ext : forall A (f g : A -> bool) l, (forall x, f x = g x) -> find f l = find g l.
 Proof. intros A f g l H; induction l as [|x t IH]; cbn; [reflexivity|]. now rewrite H, IH. Qed.
 
-(** THE ASSUMPTION: on generic authorizations the real lookup is the model's relation, read-only. *)
-Theorem generic_store_is_relation : forall st c m wasm granter grantees,
-  all_generic st -> cache_ok st c ->
-  exists c', find_grantee_c st c granter grantees (authz_urls m) =
-             (find_grantee (mk_env m wasm (raw_of st)) granter grantees, st, c') /\
-             cache_ok st c'.
+(** THE ASSUMPTION: on generic authorizations the real lookup is the model's relation (of the
+    grants live at the block time), read-only, and never errors. *)
+Theorem generic_store_is_relation : forall now st c m wasm granter grantees,
+  all_generic st -> cache_ok now st c ->
+  exists c',
+    (match find_grantee (mk_env m wasm (raw_of now st)) granter grantees with
+     | Some g => find_grantee_c now st c granter grantees (authz_urls m) = RFound g st c'
+     | None => find_grantee_c now st c granter grantees (authz_urls m) = RNone st c'
+     end) /\ cache_ok now st c'.
 Proof.
-  intros st c m wasm granter grantees Hg Hok.
-  destruct (find_grantee_c_generic st c granter grantees (authz_urls m) Hg Hok) as (c' & Heq & Hok').
-  exists c'. split; [|exact Hok']. rewrite Heq. unfold find_grantee.
-  rewrite (find_ext _ _ (granted (mk_env m wasm (raw_of st)) granter) grantees); [reflexivity|].
-  intros g. symmetry. apply granted_raw.
+  intros now st c m wasm granter grantees Hg Hok.
+  destruct (find_grantee_c_generic now st c granter grantees (authz_urls m) Hg Hok) as (c' & Heq & Hok').
+  exists c'. split; [|exact Hok']. unfold find_grantee.
+  rewrite (find_ext _ (granted (mk_env m wasm (raw_of now st)) granter)
+                      (fun g => existsb (has now st granter g) (authz_urls m)) grantees); [exact Heq|].
+  intros g. apply granted_raw.
 Qed.
 
 (** ... and it is needed: one count-limited authorization, the same lookup twice (each with the
     fresh cache of a new message): found and consumed, then gone. *)
 Theorem counted_store_is_not_a_relation :
-  exists st granter grantees m,
-    let '(r1, st1, _) := find_grantee_c st [] granter grantees (authz_urls m) in
-    let '(r2, _, _) := find_grantee_c st1 [] granter grantees (authz_urls m) in
-    r1 = Some 2 /\ st1 <> st /\ r2 = None /\
-    find_grantee (mk_env m [] (raw_of st)) granter grantees = Some 2.
+  exists st granter grantees m now,
+    find_grantee_c now st [] granter grantees (authz_urls m) = RFound 2 [] [(2, 1, 1)] /\
+    find_grantee_c now [] [] granter grantees (authz_urls m) = RNone [] [] /\
+    find_grantee (mk_env m [] (raw_of now st)) granter grantees = Some 2.
 Proof.
-  exists [{| cg_granter := 1; cg_grantee := 2; cg_kind := 1; cg_left := Some 1 |}], 1, [2], 1.
-  vm_compute. repeat split; try reflexivity. discriminate.
+  exists [{| cg_granter := 1; cg_grantee := 2; cg_kind := 1; cg_left := Some 1; cg_exp := None |}], 1, [2], 1, 5.
+  vm_compute. repeat split; reflexivity.
 Qed.
 
 (** Within ONE message the cache makes the second lookup of the same triple free. *)
 Theorem counted_lookup_cached_within_message :
-  exists st granter grantees m,
-    let '(r1, st1, c1) := find_grantee_c st [] granter grantees (authz_urls m) in
-    let '(r2, st2, _) := find_grantee_c st1 c1 granter grantees (authz_urls m) in
-    r1 = Some 2 /\ r2 = Some 2 /\ st2 = st1.
+  exists st granter grantees m now c1,
+    find_grantee_c now st [] granter grantees (authz_urls m) = RFound 2 [] c1 /\
+    find_grantee_c now [] c1 granter grantees (authz_urls m) = RFound 2 [] c1.
 Proof.
-  exists [{| cg_granter := 1; cg_grantee := 2; cg_kind := 1; cg_left := Some 1 |}], 1, [2], 1.
+  exists [{| cg_granter := 1; cg_grantee := 2; cg_kind := 1; cg_left := Some 1; cg_exp := None |}], 1, [2], 1, 5,
+         [(2, 1, 1)].
   vm_compute. repeat split; reflexivity.
 Qed.
 
-(** ** A CountAuthorization with n uses stands in for exactly n messages *)
+(** ** A message accepted through a grant had a grant that was live at its block time *)
+Lemma try_kinds_found_live : forall now st granter grantee kinds st' c',
+  try_kinds now st [] granter grantee kinds = LFound st' c' ->
+  exists g k, In g st /\ In k kinds /\ cg_is granter grantee k g = true /\ live now g = true.
+Proof.
+  intros now st granter grantee kinds st' c'; induction kinds as [|k rest IH]; intros H; cbn [try_kinds] in H;
+    [discriminate|]. cbn [cache_has existsb] in H.
+  destruct (find (cg_live_is now granter grantee k) st) as [g|] eqn:Hf.
+  - apply find_some in Hf as [Hin Hp]. apply andb_prop in Hp as [Hp1 Hp2].
+    destruct (accept g) as [| | |g'].
+    + destruct (IH H) as (g0 & k0 & H1 & H2 & H3 & H4). exists g0, k0.
+      split; [exact H1|]. split; [now right|]. split; assumption.
+    + exists g, k. split; [exact Hin|]. split; [now left|]. split; assumption.
+    + exists g, k. split; [exact Hin|]. split; [now left|]. split; assumption.
+    + exists g, k. split; [exact Hin|]. split; [now left|]. split; assumption.
+  - destruct (IH H) as (g0 & k0 & H1 & H2 & H3 & H4). exists g0, k0.
+    split; [exact H1|]. split; [now right|]. split; assumption.
+Qed.
+
+Theorem accepted_message_had_live_grant : forall now st granter signers m,
+  fst (one_message now st granter signers m) = true ->
+  In granter signers \/
+  exists g s, In g st /\ In s signers /\ In (cg_kind g) (authz_urls m) /\
+              cg_granter g = granter /\ cg_grantee g = s /\ live now g = true.
+Proof.
+  intros now st granter signers m H. unfold one_message in H.
+  destruct (mem granter signers) eqn:Hm.
+  - left. unfold mem in Hm. apply existsb_exists in Hm as (x & Hx & He). apply Z.eqb_eq in He. now subst.
+  - right. clear Hm.
+    assert (HG : forall grantees, (forall s, In s grantees -> In s signers) ->
+              forall s st' c', find_grantee_c now st [] granter grantees (authz_urls m) = RFound s st' c' ->
+              exists g s, In g st /\ In s signers /\ In (cg_kind g) (authz_urls m) /\
+                          cg_granter g = granter /\ cg_grantee g = s /\ live now g = true).
+    { induction grantees as [|x rest IH]; intros Hincl s st' c' HF; cbn [find_grantee_c] in HF; [discriminate|].
+      destruct (try_kinds now st [] granter x (authz_urls m)) as [|st2 c2|] eqn:HT.
+      - eapply IH; [|exact HF]. intros y Hy. apply Hincl. now right.
+      - destruct (try_kinds_found_live _ _ _ _ _ _ _ HT) as (g & k & Hg & Hk & Hc & Hl).
+        unfold cg_is in Hc. apply andb_prop in Hc as [Hc H3]. apply andb_prop in Hc as [H1 H2].
+        apply Z.eqb_eq in H1, H2, H3. exists g, x. repeat split; auto.
+        + apply Hincl. now left.
+        + now rewrite H3.
+      - discriminate. }
+    destruct (find_grantee_c now st [] granter signers (authz_urls m)) as [st' c'|s st' c'|] eqn:HF;
+      cbn in H; try discriminate.
+    eapply HG; [|exact HF]. auto.
+Qed.
+
+(** ** A CountAuthorization with n uses (no expiration) stands in for exactly n messages *)
 Definition st_n (a b m : Z) (n : nat) : cstore :=
-  [{| cg_granter := a; cg_grantee := b; cg_kind := m; cg_left := Some (Z.of_nat n) |}].
+  [{| cg_granter := a; cg_grantee := b; cg_kind := m; cg_left := Some (Z.of_nat n); cg_exp := None |}].
 
 Lemma authz_urls_head : forall m, exists t, authz_urls m = m :: t.
 Proof. intros m. unfold authz_urls. eauto. Qed.
 
-Lemma one_message_empty : forall a signers m, mem a signers = false ->
-  one_message [] a signers m = (false, []).
+Lemma one_message_empty : forall now a signers m, mem a signers = false ->
+  one_message now [] a signers m = (false, []).
 Proof.
-  intros a signers m Hm. unfold one_message. rewrite Hm.
-  assert (H : forall kinds, find_grantee_c [] [] a signers kinds = (None, [], [])).
-  { intros kinds. induction signers as [|s t IH]; cbn; [reflexivity|].
-    assert (HT : try_kinds [] [] a s kinds = None).
+  intros now a signers m Hm. unfold one_message. rewrite Hm.
+  assert (H : forall kinds, find_grantee_c now [] [] a signers kinds = RNone [] []).
+  { intros kinds. clear Hm. induction signers as [|s t IH]; cbn; [reflexivity|].
+    assert (HT : try_kinds now [] [] a s kinds = LNone).
     { clear. induction kinds as [|k ks IHk]; [reflexivity|]. cbn [try_kinds cache_has existsb find]. exact IHk. }
-    rewrite HT. apply IH. cbn in Hm. apply orb_false_elim in Hm. tauto. }
+    rewrite HT. apply IH. }
   now rewrite H.
 Qed.
 
-Lemma one_message_count : forall a b m n, a <> b ->
-  one_message (st_n a b m n) a [b] m =
+Lemma one_message_count : forall now a b m n, a <> b ->
+  one_message now (st_n a b m n) a [b] m =
   match n with
   | O => (false, st_n a b m 0)
   | S O => (true, [])
   | S (S n') => (true, st_n a b m (S n'))
   end.
 Proof.
-  intros a b m n Hne. unfold one_message.
+  intros now a b m n Hne. unfold one_message.
   assert (Hm : mem a [b] = false).
   { unfold mem. cbn. rewrite orb_false_r. now apply Z.eqb_neq. }
   rewrite Hm. destruct (authz_urls_head m) as (t & ->).
   cbn [find_grantee_c try_kinds cache_has existsb st_n find].
-  unfold cg_is at 1. cbn [cg_granter cg_grantee cg_kind].
+  unfold cg_live_is at 1. unfold cg_is at 1, live at 1. cbn [cg_granter cg_grantee cg_kind cg_exp].
   rewrite !Z.eqb_refl. cbn [andb]. unfold accept. cbn [cg_left].
   destruct n as [|[|n']].
   - cbn [Z.of_nat Z.leb Z.compare]. cbn.
-    (* count 0: Accept errors for every kind; the other kinds have no grant unless equal to m *)
-    assert (HT : forall kinds, try_kinds (st_n a b m 0) [] a b kinds = None).
+    assert (HT : forall kinds, try_kinds now (st_n a b m 0) [] a b kinds = LNone).
     { induction kinds as [|k ks IH]; cbn; [reflexivity|].
-      destruct (cg_is a b k _); [exact IH|exact IH]. }
+      destruct (cg_live_is now a b k _); [exact IH|exact IH]. }
     unfold st_n in HT. cbn in HT. now rewrite HT.
   - change (Z.of_nat 1) with 1. cbn [Z.leb Z.eqb Z.compare Pos.eqb st_update st_n].
-    unfold cg_is. cbn [cg_granter cg_grantee cg_kind]. rewrite !Z.eqb_refl. reflexivity.
+    unfold cg_live_is, cg_is, live. cbn [cg_granter cg_grantee cg_kind cg_exp]. rewrite !Z.eqb_refl. reflexivity.
   - assert (H1 : Z.leb (Z.of_nat (S (S n'))) 0 = false) by (apply Z.leb_gt; lia).
     assert (H2 : Z.eqb (Z.of_nat (S (S n'))) 1 = false) by (apply Z.eqb_neq; lia).
-    rewrite H1, H2. unfold st_n. cbn [st_update]. unfold cg_is. cbn [cg_granter cg_grantee cg_kind].
+    rewrite H1, H2. cbn [save_ok cg_exp]. unfold st_n. cbn [st_update].
+    unfold cg_live_is, cg_is, live. cbn [cg_granter cg_grantee cg_kind cg_exp].
     rewrite !Z.eqb_refl. cbn [andb].
     replace (Z.of_nat (S (S n')) - 1) with (Z.of_nat (S n')) by lia. reflexivity.
 Qed.
 
-Lemma messages_empty : forall k a signers m, mem a signers = false ->
-  messages k [] a signers m = repeat false k.
+Lemma messages_cons : forall now times st a signers m,
+  messages (now :: times) st a signers m =
+  fst (one_message now st a signers m) :: messages times (snd (one_message now st a signers m)) a signers m.
 Proof.
-  induction k as [|k IH]; intros a signers m Hm; cbn [messages repeat]; [reflexivity|].
-  rewrite (one_message_empty _ _ _ Hm). now rewrite IH.
+  intros. unfold messages. cbn [messages_obs]. destruct (one_message now st a signers m). reflexivity.
 Qed.
 
-Theorem count_n_stands_for_n_messages : forall n k a b m, a <> b ->
-  messages k (st_n a b m n) a [b] m = repeat true (Nat.min k n) ++ repeat false (k - n).
+Lemma messages_empty : forall times a signers m, mem a signers = false ->
+  messages times [] a signers m = repeat false (length times).
+Proof.
+  induction times as [|now times IH]; intros a signers m Hm; [reflexivity|].
+  rewrite messages_cons, (one_message_empty _ _ _ _ Hm). cbn [fst snd length repeat]. now rewrite IH.
+Qed.
+
+Theorem count_n_stands_for_n_messages : forall n times a b m, a <> b ->
+  messages times (st_n a b m n) a [b] m =
+  repeat true (Nat.min (length times) n) ++ repeat false (length times - n).
 Proof.
   assert (Hm : forall a b, a <> b -> mem a [b] = false).
   { intros a b Hne. unfold mem. cbn. rewrite orb_false_r. now apply Z.eqb_neq. }
-  induction n as [|n IH]; intros k a b m Hne.
+  induction n as [|n IH]; intros times a b m Hne.
   - rewrite Nat.min_0_r, Nat.sub_0_r. cbn [repeat app].
-    induction k as [|k IHk]; cbn [messages repeat]; [reflexivity|].
-    rewrite (one_message_count a b m 0 Hne). now rewrite IHk.
-  - destruct k as [|k]; [reflexivity|]. cbn [messages].
-    rewrite (one_message_count a b m (S n) Hne). destruct n as [|n'].
-    + rewrite (messages_empty _ _ _ _ (Hm a b Hne)). cbn [Nat.min Nat.sub].
-      destruct k; cbn; rewrite ?Nat.sub_0_r; reflexivity.
-    + rewrite (IH k a b m Hne). reflexivity.
+    induction times as [|now times IHk]; [reflexivity|].
+    rewrite messages_cons, (one_message_count now a b m 0 Hne). cbn [fst snd length repeat]. now rewrite IHk.
+  - destruct times as [|now times]; [reflexivity|].
+    rewrite messages_cons, (one_message_count now a b m (S n) Hne). destruct n as [|n'].
+    + cbn [fst snd]. rewrite (messages_empty _ _ _ _ (Hm a b Hne)). cbn [length Nat.min Nat.sub].
+      destruct (length times); cbn; rewrite ?Nat.sub_0_r; reflexivity.
+    + cbn [fst snd]. rewrite (IH times a b m Hne). reflexivity.
 Qed.
+
+(** ** Expirations.  Granter 1, grantee 2, expiration at second 10.  3 uses: before the expiration
+    it works and the expiration stays; AT second 10 the message fails (two uses left: the re-save
+    is refused) and nothing changes; after it nothing is found.  With 1 use left, or generic, the
+    message AT second 10 still goes through.  The expiration reported for the key never changes. *)
+Theorem expiration_behaviour :
+  let g uses := {| cg_granter := 1; cg_grantee := 2; cg_kind := 1; cg_left := uses; cg_exp := Some 10 |} in
+  messages_obs [g (Some 3)] [5; 10; 10; 11] [g (Some 3)] 1 [2] 1 =
+    [(true, [10]); (false, [10]); (false, [10]); (false, [10])] /\
+  messages_obs [g (Some 2)] [5; 10; 11] [g (Some 2)] 1 [2] 1 =
+    [(true, [10]); (true, [-1]); (false, [-1])] /\
+  messages_obs [g None] [5; 10; 11] [g None] 1 [2] 1 =
+    [(true, [10]); (true, [10]); (false, [10])].
+Proof. vm_compute. repeat split; reflexivity. Qed.
